@@ -126,6 +126,10 @@ Inductive bexpr :=
 | BInt (z : Z)             (* integer literal *)
 | BReal (q : Q)            (* floating literal *)
 | BN                       (* n_vectors (IndexType) *)
+| BDim                     (* current_dimension (IndexType): features.dimension(), 0 without features *)
+| BParam (k : nat) (t : vtype)   (* static_cast<t>(parameters[k]); the translator also emits the
+                                    conversion as a BConv step in front of the statement *)
+| BTrunc (a : bexpr)       (* static_cast<IndexType>(a): truncation toward zero *)
 | BAdd (a b : bexpr) | BSub (a b : bexpr) | BMul (a b : bexpr) | BDiv (a b : bexpr).
 
 Inductive num := NI (z : Z) | NR (q : Q).
@@ -138,18 +142,31 @@ Definition num_arith (fz : Z -> Z -> Z) (fq : Q -> Q -> Q) (x y : num) : num :=
   | _, _ => NR (fq (num_Q x) (num_Q y))
   end.
 
-Fixpoint eval_bexpr (n : Z) (b : bexpr) : num :=
+Definition Qtrunc (q : Q) : Z := if Qle_bool 0 q then Qfloor q else Qceiling q.
+
+(* what a bound expression may refer to: n_vectors, current_dimension, the (merged) parameters *)
+Record env := { e_n : Z; e_dim : Z; e_get : nat -> option value }.
+
+Definition param_num (t : vtype) (v : option value) : num :=
+  match t, v with
+  | TIndex, Some (VIndex z) => NI z
+  | TScalar, Some (VScalar q) => NR q
+  | _, _ => NI 0                    (* the conversion throws: see the BConv step in front *)
+  end.
+
+Fixpoint eval_bexpr (E : env) (b : bexpr) : num :=
   match b with
   | BInt z => NI z
   | BReal q => NR q
-  | BN => NI n
-  | BAdd a c => num_arith Z.add Qplus (eval_bexpr n a) (eval_bexpr n c)
-  | BSub a c => num_arith Z.sub Qminus (eval_bexpr n a) (eval_bexpr n c)
-  | BMul a c => num_arith Z.mul Qmult (eval_bexpr n a) (eval_bexpr n c)
-  | BDiv a c => num_arith Z.quot Qdiv (eval_bexpr n a) (eval_bexpr n c)   (* int / int truncates *)
+  | BN => NI (e_n E)
+  | BDim => NI (e_dim E)
+  | BParam k t => param_num t (e_get E k)
+  | BTrunc a => match eval_bexpr E a with NI z => NI z | NR q => NI (Qtrunc q) end
+  | BAdd a c => num_arith Z.add Qplus (eval_bexpr E a) (eval_bexpr E c)
+  | BSub a c => num_arith Z.sub Qminus (eval_bexpr E a) (eval_bexpr E c)
+  | BMul a c => num_arith Z.mul Qmult (eval_bexpr E a) (eval_bexpr E c)
+  | BDiv a c => num_arith Z.quot Qdiv (eval_bexpr E a) (eval_bexpr E c)   (* int / int truncates *)
   end.
-
-Definition Qtrunc (q : Q) : Z := if Qle_bool 0 q then Qfloor q else Qceiling q.
 
 (* the constructor InRange<T>(l, u) converts its arguments to T *)
 Definition coerce (ty : vtype) (x : num) : Q :=
@@ -171,21 +188,21 @@ Record pred := {
   p_hi : option (bool * bexpr)      (* (strict?, bound): v < bound  or  v <= bound *)
 }.
 
-Definition lo_holds (n : Z) (ty : vtype) (lo : option (bool * bexpr)) (x : Q) : bool :=
+Definition lo_holds (n : env) (ty : vtype) (lo : option (bool * bexpr)) (x : Q) : bool :=
   match lo with
   | None => true
   | Some (strict, b) =>
       if strict then Qltb (coerce ty (eval_bexpr n b)) x else Qle_bool (coerce ty (eval_bexpr n b)) x
   end.
 
-Definition hi_holds (n : Z) (ty : vtype) (hi : option (bool * bexpr)) (x : Q) : bool :=
+Definition hi_holds (n : env) (ty : vtype) (hi : option (bool * bexpr)) (x : Q) : bool :=
   match hi with
   | None => true
   | Some (strict, b) =>
       if strict then Qltb x (coerce ty (eval_bexpr n b)) else Qle_bool x (coerce ty (eval_bexpr n b))
   end.
 
-Definition pred_holds (n : Z) (ty : vtype) (p : pred) (x : Q) : bool :=
+Definition pred_holds (n : env) (ty : vtype) (p : pred) (x : Q) : bool :=
   lo_holds n ty (p_lo p) x && hi_holds n ty (p_hi p) x.
 
 (* parameters[kw].checked().satisfies(Pred<ty>(...)).orThrow() *)
@@ -199,8 +216,14 @@ Definition value_Q (v : value) : option Q :=
   end.
 
 (* ------------------------------------------------------------------ tables *)
-(* a guard  parameters[k].is(v) == pos  of an enclosing if / else *)
-Record guard := { g_kw : kwid; g_val : value; g_pos : bool }.
+(* a guard of an enclosing if / else:
+     GIs k v pos    parameters[k].is(v) == pos
+     GGt k t q pos  (static_cast<t>(parameters[k]) > q) == pos   (the conversion is a BConv step in front) *)
+Inductive guard :=
+| GIs (k : kwid) (v : value) (pos : bool)
+| GGt (k : kwid) (t : vtype) (q : Q) (pos : bool).
+
+Definition g_kw (g : guard) : kwid := match g with GIs k _ _ => k | GGt k _ _ _ => k end.
 
 Inductive bstep :=
 | BConv (k : kwid) (t : vtype)   (* parameters[k] converted to t (argument, initialiser, cast) *)
@@ -276,6 +299,7 @@ Definition pm_merge (pm : pmap) (d : pmap) : pmap :=
 Record request := {
   rq_kws : list (kwid * value);   (* the comma expression, in order, with multiplicity *)
   rq_n : Z;                       (* end - begin *)
+  rq_dim : Z;                     (* what features.dimension() returns *)
   rq_kernel : bool;               (* a real (non-dummy) kernel callback is supplied *)
   rq_distance : bool;
   rq_features : bool
@@ -296,7 +320,7 @@ Definition do_conv (pm : pmap) (k : kwid) (t : vtype) : option sw_exc :=
 
 (* parameters[k].checked().satisfies(P<ty>(..)).orThrow():
    operator[] (missed); isCondition -> getValue<ty> (wrong type); predicate; orThrow (wrong value) *)
-Definition do_check (pm : pmap) (n : Z) (c : check) : option sw_exc :=
+Definition do_check (pm : pmap) (n : env) (c : check) : option sw_exc :=
   match pm_lookup (c_kw c) pm with
   | None => Some SwMissed
   | Some v =>
@@ -308,11 +332,30 @@ Definition do_check (pm : pmap) (n : Z) (c : check) : option sw_exc :=
       else Some SwWrongType
   end.
 
-Definition guard_holds (pm : pmap) (g : guard) : bool :=
-  match pm_lookup (g_kw g) pm with
-  | Some v => Bool.eqb (value_is v (g_val g)) (g_pos g)
-  | None => false                        (* operator[] would throw; wf tables only guard on defaults *)
+Definition guard_on (get : nat -> option value) (g : guard) : bool :=
+  match g with
+  | GIs k gv pos =>
+      match get k with
+      | Some v => Bool.eqb (value_is v gv) pos
+      | None => false                    (* operator[] would throw; wf tables only guard on defaults *)
+      end
+  | GGt k t q pos =>
+      match get k with
+      | Some v => match value_Q v with
+                  | Some x => Bool.eqb (Qltb q x) pos
+                  | None => false
+                  end
+      | None => false
+      end
   end.
+
+Definition guard_holds (pm : pmap) (g : guard) : bool := guard_on (fun k => pm_lookup k pm) g.
+
+(* current_dimension of the base class: features.dimension() or 0 *)
+Definition cur_dim (r : request) : Z := if rq_features r then rq_dim r else 0.
+
+Definition mk_env (r : request) (pm : pmap) : env :=
+  {| e_n := rq_n r; e_dim := cur_dim r; e_get := fun k => pm_lookup k pm |}.
 
 Definition translate (T : tables) (s : sw_exc) : exc :=
   match find (fun p => sw_eqb (fst p) s) (t_rethrow T) with
@@ -334,7 +377,7 @@ Fixpoint exec_steps (T : tables) (r : request) (pm : pmap) (steps : list step)
             | None => exec_steps T r pm rest
             end
         | BCheck c =>
-            match do_check pm (rq_n r) c with
+            match do_check pm (mk_env r pm) c with
             | Some e => ([], Some (translate T e))
             | None => exec_steps T r pm rest
             end
@@ -384,7 +427,7 @@ Definition do_stage (T : tables) (r : request) (s : pset) (st : stage) : sres :=
       end
   | SNoData => if Z.eqb (rq_n r) 0 then Stop [] NoData else Go [] s
   | SCheck c =>
-      match do_check (ps_map s) (rq_n r) c with
+      match do_check (ps_map s) (mk_env r (ps_map s)) c with
       | Some e => Stop [] (translate T e) | None => Go [] s
       end
   | SFeatDim => Go (if rq_features r then [EvFeatDim] else []) s
